@@ -246,6 +246,9 @@ package processor
 //@     requires 0 <= i && i < len(createOps) && 0 <= j && j < len(createOps) && allNonNil(createOps)
 //@   end
 //@   requires procOK(s)
+//   the updates that still count are those anchored after the last operation that was *applied* (create, or the last
+//   accepted recover), not after the last full operation that merely appears in the history
+//@   atcall getOpsWithTxnGreaterThanOrUnpublished txnTime == rm.LastOperationTransactionTime && txnNumber == rm.LastOperationTransactionNumber
 //@   ensures err == nil ==> r0 != nil
 //@   ensures err == nil && r0.Deactivated ==> r0.UpdateCommitment == "" && r0.RecoveryCommitment == ""
 //@   ensures err != nil ==> r0 == nil
